@@ -82,6 +82,8 @@ type Observers struct {
 }
 
 type World struct {
+	Erased, Recommitted map[int64]bool // version numbers erased by a rollback / committed again since
+	LastVReadOp         Op
 	kbuf []byte // see rk
 	LastVRead int64 // version of the last vread step
 	Quiet         bool // see History.Quiet
@@ -300,6 +302,14 @@ func (w *World) setWorkingFrom(v int64) {
 
 func (w *World) rawDump() map[string][]byte { return DumpDB(w.DB) }
 
+func (w *World) markErased(v int64) {
+	if w.Erased == nil {
+		w.Erased = map[int64]bool{}
+	}
+	w.Erased[v] = true
+	delete(w.Recommitted, v)
+}
+
 // rk hands the key to a read call through ONE buffer that is overwritten for every call (a caller is free to reuse its
 // key buffer between reads): nothing the library keeps from a read may alias the caller's memory.
 func (w *World) rk(k []byte) []byte {
@@ -415,6 +425,7 @@ func (w *World) Apply(op Op) (v *Violation) {
 		}
 		for v := n + 1; v <= w.Latest; v++ {
 			delete(w.Vers, v)
+			w.markErased(v)
 		}
 		w.Latest = n
 		w.Cur = n
@@ -445,6 +456,14 @@ func (w *World) Apply(op Op) (v *Violation) {
 		if n < w.Latest && w.Cfg.SkipFast && w.EverFast {
 			w.F3Exposed = true
 		}
+		if op.Read == "cold" {
+			// the rollback is the very first call on a brand-new handle (nothing loaded, nothing discovered yet)
+			_ = w.Tree.Close()
+			w.reopenBackend()
+			w.newTree()
+			t = w.Tree
+			w.Labels["dvf_first_call_on_a_new_handle"] = true
+		}
 		if err := t.DeleteVersionsFrom(n + 1); err != nil {
 			return w.viol("dvf.err", "DeleteVersionsFrom(%d): %v", n+1, err)
 		}
@@ -454,6 +473,7 @@ func (w *World) Apply(op Op) (v *Violation) {
 		oldLatest := w.Latest
 		for v := n + 1; v <= w.Latest; v++ {
 			delete(w.Vers, v)
+			w.markErased(v)
 		}
 		w.Latest = n
 		if w.LegacyLatest > n {
@@ -650,6 +670,13 @@ func (w *World) applySave(op Op) *Violation {
 		w.Labels["leaf_root_version"] = true
 	}
 	rhash(w.WRoot, wv, true)
+	if w.Erased[wv] {
+		delete(w.Erased, wv)
+		if w.Recommitted == nil {
+			w.Recommitted = map[int64]bool{}
+		}
+		w.Recommitted[wv] = true // this version NUMBER now names other contents than it did before the rollback
+	}
 	w.Vers[wv] = &VerState{Root: w.WRoot, KV: copyKV(w.WKV), Touched: w.WTouched, Normal: isNormalForm(w.WOps), Writes: append([]Op{}, w.WOps...), Logged: w.WBaseLogged}
 	if w.First == 0 || len(w.Vers) == 1 {
 		w.First = wv
@@ -899,6 +926,8 @@ func (w *World) applyVRead(op Op) *Violation {
 	w.Labels["vread"] = true
 	w.Cnt["vread_steps"]++
 	w.LastVRead = op.N
+	w.LastVReadOp = op
+	delete(w.Recommitted, op.N)
 	switch op.Read {
 	case "versioned":
 		g, err := t.GetVersioned(op.K, op.N)
